@@ -1,5 +1,5 @@
 //@ unit U-JOIN
-//@ props C16
+//@ props C16 C14
 //@ verus-args --rlimit 100 --triggers-mode silent
 //@ config MDB_SHARD_MIN_TARGET_SIZE MDB_SHARD_LOCAL_CACHE_EXPIRATION_SECS
 //@ gsubst `dyn Client + Send + Sync` => `VxClient` :: R11 stub type for the cas_client trait object (never called by the functions under proof)
@@ -31,7 +31,14 @@ pub mod tokio {
         pub struct VxFuture<T> { _p: std::marker::PhantomData<T> }
         impl<T> VxFuture<T> {
             pub uninterp spec fn outcome(&self) -> Result<T, JoinError>;
+            /// prophecy: total this task adds to a shared byte counter it captured (0 if it captured none)
+            pub uninterp spec fn rep_c(&self) -> int;
+            /// prophecy: total bytes this task hands to the store (sum of the lengths it passes to accepted uploads)
+            pub uninterp spec fn handed(&self) -> int;
+            pub open spec fn rec(&self) -> TaskRec<T> { TaskRec { outcome: self.outcome(), rep_c: self.rep_c(), handed: self.handed() } }
         }
+        /// ghost record of one task: its outcome and its two byte quantities
+        pub struct TaskRec<T> { pub outcome: Result<T, JoinError>, pub rep_c: int, pub handed: int }
 
         #[verifier::external_body]
         #[verifier::accept_recursive_types(T)]
@@ -41,22 +48,42 @@ pub mod tokio {
             uninterp spec fn view(&self) -> Multiset<Result<T, JoinError>>;
         }
         impl<T> JoinSet<T> {
+            /// the pending tasks as records (parallel to `@`, which holds only their outcomes)
+            pub uninterp spec fn recs(&self) -> Multiset<TaskRec<T>>;
+            /// record of the task most recently handed back by join_next / try_join_next
+            pub uninterp spec fn last(&self) -> TaskRec<T>;
+            /// history sums over every task joined from this set since it was created
+            pub uninterp spec fn joined_c(&self) -> int;
+            pub uninterp spec fn joined_h(&self) -> int;
+            pub open spec fn joined_step(old_s: &Self, new_s: &Self, x: Result<T, JoinError>) -> bool {
+                &&& old_s.recs().contains(new_s.last()) && new_s.last().outcome == x
+                &&& new_s.recs() == old_s.recs().remove(new_s.last())
+                &&& new_s.joined_c() == old_s.joined_c() + new_s.last().rep_c
+                &&& new_s.joined_h() == old_s.joined_h() + new_s.last().handed
+            }
+            pub open spec fn unchanged_ledger(old_s: &Self, new_s: &Self) -> bool {
+                new_s.recs() == old_s.recs() && new_s.joined_c() == old_s.joined_c() && new_s.joined_h() == old_s.joined_h()
+            }
+
             #[verifier::external_body]
             pub fn new() -> (r: Self)
-                ensures r@ == Multiset::<Result<T, JoinError>>::empty()
+                ensures r@ == Multiset::<Result<T, JoinError>>::empty(), r.recs() == Multiset::<TaskRec<T>>::empty(),
+                    r.joined_c() == 0, r.joined_h() == 0,
             { unimplemented!() }
 
             #[verifier::external_body]
             pub fn spawn(&mut self, task: VxFuture<T>)
-                ensures final(self)@ == old(self)@.insert(task.outcome())
+                ensures final(self)@ == old(self)@.insert(task.outcome()),
+                    final(self).recs() == old(self).recs().insert(task.rec()),
+                    final(self).joined_c() == old(self).joined_c(), final(self).joined_h() == old(self).joined_h(),
             { unimplemented!() }
 
             /// tokio: "Returns None if the set is empty"; otherwise waits for *some* task
             #[verifier::external_body]
             pub fn join_next(&mut self) -> (r: Option<Result<T, JoinError>>)
                 ensures match r {
-                    None => old(self)@.len() == 0 && final(self)@ == old(self)@,
-                    Some(x) => old(self)@.contains(x) && final(self)@ == old(self)@.remove(x),
+                    None => old(self)@.len() == 0 && final(self)@ == old(self)@ && Self::unchanged_ledger(old(self), final(self)),
+                    Some(x) => old(self)@.contains(x) && final(self)@ == old(self)@.remove(x) && Self::joined_step(old(self), final(self), x),
                 }
             { unimplemented!() }
 
@@ -64,8 +91,8 @@ pub mod tokio {
             #[verifier::external_body]
             pub fn try_join_next(&mut self) -> (r: Option<Result<T, JoinError>>)
                 ensures match r {
-                    None => final(self)@ == old(self)@,
-                    Some(x) => old(self)@.contains(x) && final(self)@ == old(self)@.remove(x),
+                    None => final(self)@ == old(self)@ && Self::unchanged_ledger(old(self), final(self)),
+                    Some(x) => old(self)@.contains(x) && final(self)@ == old(self)@.remove(x) && Self::joined_step(old(self), final(self), x),
                 }
             { unimplemented!() }
         }
@@ -93,7 +120,7 @@ pub mod tokio {
         }
     }
 }
-use tokio::task::{JoinSet, JoinError, VxFuture};
+use tokio::task::{JoinSet, JoinError, VxFuture, TaskRec};
 use tokio::sync::{Mutex, VxLockInv};
 
 #[verifier::external_body]
@@ -139,24 +166,94 @@ impl From<VxIoError> for DataProcessingError {
 pub type Result<T> = std::result::Result<T, DataProcessingError>;
 
 // ---- the C16 vocabulary ------------------------------------------------------------------------------------------------
-pub type TaskRes = std::result::Result<Result<()>, JoinError>;
+/// what joining a task of value type V yields (V = () in the repository; generic so that an edit of the task's value type
+/// is still decided)
+pub type TaskResV<V> = std::result::Result<Result<V>, JoinError>;
+pub type TaskRes = TaskResV<()>;
 /// a joined task reported success: neither a JoinError (panic / cancel) nor an upload error
-pub open spec fn task_ok(x: TaskRes) -> bool { x matches Ok(Ok(_)) }
+pub open spec fn task_ok<V>(x: TaskResV<V>) -> bool { x matches Ok(Ok(_)) }
 /// `now` is what is left of `before` after removing only successful results
-pub open spec fn drained_ok(before: Multiset<TaskRes>, now: Multiset<TaskRes>) -> bool {
-    now.subset_of(before) && forall|x: TaskRes| before.count(x) > now.count(x) ==> #[trigger] task_ok(x)
+pub open spec fn drained_ok<V>(before: Multiset<TaskResV<V>>, now: Multiset<TaskResV<V>>) -> bool {
+    now.subset_of(before) && forall|x: TaskResV<V>| before.count(x) > now.count(x) ==> #[trigger] task_ok(x)
 }
-pub open spec fn all_ok(s: Multiset<TaskRes>) -> bool {
-    forall|x: TaskRes| s.count(x) > 0 ==> #[trigger] task_ok(x)
+pub open spec fn all_ok<V>(s: Multiset<TaskResV<V>>) -> bool {
+    forall|x: TaskResV<V>| s.count(x) > 0 ==> #[trigger] task_ok(x)
 }
-pub proof fn lemma_drained_all(before: Multiset<TaskRes>, now: Multiset<TaskRes>)
+pub proof fn lemma_drained_all<V>(before: Multiset<TaskResV<V>>, now: Multiset<TaskResV<V>>)
     requires drained_ok(before, now), now.len() == 0,
     ensures all_ok(before),
 {
-    assert forall|x: TaskRes| before.count(x) > 0 implies #[trigger] task_ok(x) by {
+    assert forall|x: TaskResV<V>| before.count(x) > 0 implies #[trigger] task_ok(x) by {
         if now.count(x) > 0 { assert(now.contains(x)); assert(now.len() > 0); }
     }
 }
+
+// ---- the C14 vocabulary: bytes reported == bytes handed to the store ---------------------------------------------------
+/// bytes a task reports through its return value: nothing for `()`, the number itself for `usize`
+pub trait VxTaskVal { spec fn val_bytes(&self) -> int; }
+impl VxTaskVal for () { open spec fn val_bytes(&self) -> int { 0 } }
+impl VxTaskVal for usize { open spec fn val_bytes(&self) -> int { *self as int } }
+pub open spec fn outcome_val<V: VxTaskVal>(o: TaskResV<V>) -> int { match o { Ok(Ok(v)) => v.val_bytes(), _ => 0 } }
+/// contract of one shard upload task, in terms of: bytes reported by its value, bytes it added to the shared counter, bytes it
+/// handed to the store.  Outside dry run: handed == reported (by either channel).  Dry run: nothing is handed.
+pub open spec fn shard_task_post(dry_run: bool, val: int, added: int, handed: int) -> bool {
+    if dry_run { handed == 0 } else { handed == val + added }
+}
+pub open spec fn shard_rec_ok<V: VxTaskVal>(dry_run: bool, has_counter: bool, t: TaskRec<Result<V>>) -> bool {
+    &&& !has_counter ==> t.rep_c == 0
+    &&& t.outcome matches Ok(Ok(v)) ==> shard_task_post(dry_run, v.val_bytes(), t.rep_c, t.handed)
+}
+/// R16 + capture link for the shard task: the future built at the spawn site runs the task body (verified separately as the
+/// lifted region `upload_and_register_session_shards__task` against `shard_task_post`) with the spawn site's `dry_run`, and
+/// adds to a shared counter only if it captured one.  ASSUMED: that the future's prophecy quantities are those of that body.
+#[verifier::external_body]
+pub fn vx_shard_task<V: VxTaskVal>(dry_run: Ghost<bool>, has_counter: Ghost<bool>) -> (f: VxFuture<Result<V>>)
+    ensures shard_rec_ok(dry_run@, has_counter@, f.rec())
+{ unimplemented!() }
+
+/// whatever the enclosing function uses to arrive at the byte total it reports
+pub trait VxByteCounter {
+    /// a shared counter the tasks add to (true) or a plain local / nothing (false)
+    spec fn vx_is_shared(&self) -> bool;
+    /// bytes accumulated so far in a plain local integer (0 for a shared counter)
+    spec fn vx_local_value(&self) -> int;
+    spec fn vx_init_value(&self) -> int;
+    /// every task that can add to the counter has finished
+    spec fn vx_quiescent(&self) -> bool;
+    /// the value the counter holds once quiescent
+    spec fn vx_final_value(&self) -> int;
+}
+impl VxByteCounter for Arc<AtomicUsize> {
+    open spec fn vx_is_shared(&self) -> bool { true }
+    open spec fn vx_local_value(&self) -> int { 0 }
+    open spec fn vx_init_value(&self) -> int { (**self).vx_init() as int }
+    open spec fn vx_quiescent(&self) -> bool { (**self).vx_quiescent() }
+    open spec fn vx_final_value(&self) -> int { (**self).vx_final() as int }
+}
+impl VxByteCounter for usize {
+    open spec fn vx_is_shared(&self) -> bool { false }
+    open spec fn vx_local_value(&self) -> int { *self as int }
+    open spec fn vx_init_value(&self) -> int { 0 }
+    open spec fn vx_quiescent(&self) -> bool { true }
+    open spec fn vx_final_value(&self) -> int { *self as int }
+}
+/// placeholder for "no byte counter in scope yet"
+pub struct VxNoCounter { _p: () }
+impl VxByteCounter for VxNoCounter {
+    open spec fn vx_is_shared(&self) -> bool { false }
+    open spec fn vx_local_value(&self) -> int { 0 }
+    open spec fn vx_init_value(&self) -> int { 0 }
+    open spec fn vx_quiescent(&self) -> bool { true }
+    open spec fn vx_final_value(&self) -> int { 0 }
+}
+/// ASSUMED ghost-sum invariant of the shared atomic counter: its only writers are the tasks of `js` (the Arc clones are moved
+/// into them and nowhere else), each adds exactly its `rep_c` in total, so once `js` is empty the counter is quiescent and
+/// holds  initial value + sum of rep_c over the joined tasks.
+#[verifier::external_body]
+pub proof fn vx_counter_quiescent<C: VxByteCounter, T>(c: &C, js: &JoinSet<T>)
+    requires /*@C14*/ js@.len() == 0,
+    ensures c.vx_is_shared() ==> c.vx_quiescent() && c.vx_final_value() == c.vx_init_value() + js.joined_c(),
+{}
 
 // ---- ghost event markers ----------------------------------------------------------------------------------------------
 // Uninterpreted predicates that occur nowhere but here: the two introduction lemmas are the only way to obtain them, and each
@@ -167,14 +264,21 @@ impl SessionShardInterface {
     pub uninterp spec fn vx_xorbs_drained(&self) -> bool;
     /// this interface's shard upload task set has been fully drained and every drained result was Ok(Ok(_))
     pub uninterp spec fn vx_shards_stored(&self) -> bool;
+    /// a call of upload_and_register_session_shards joined all its tasks, and they handed `n` bytes in total to upload_shard
+    pub uninterp spec fn vx_shard_bytes_handed(&self, n: int) -> bool;
 }
 #[verifier::external_body]
-proof fn vx_mark_xorbs_drained(si: &SessionShardInterface, taken: Multiset<TaskRes>, now: Multiset<TaskRes>)
+proof fn vx_mark_shard_bytes<T>(si: &SessionShardInterface, js: &JoinSet<T>, n: int)
+    requires /*@C14*/ js@.len() == 0, /*@C14*/ n == js.joined_h(),
+    ensures si.vx_shard_bytes_handed(n),
+{}
+#[verifier::external_body]
+proof fn vx_mark_xorbs_drained<V>(si: &SessionShardInterface, taken: Multiset<TaskResV<V>>, now: Multiset<TaskResV<V>>)
     requires /*@C16*/ now.len() == 0, /*@C16*/ drained_ok(taken, now),
     ensures si.vx_xorbs_drained(), all_ok(taken),
 {}
 #[verifier::external_body]
-proof fn vx_mark_shards_stored(si: &SessionShardInterface, spawned: Multiset<TaskRes>, now: Multiset<TaskRes>)
+proof fn vx_mark_shards_stored<V>(si: &SessionShardInterface, spawned: Multiset<TaskResV<V>>, now: Multiset<TaskResV<V>>)
     requires /*@C16*/ now.len() == 0, /*@C16*/ drained_ok(spawned, now),
     ensures si.vx_shards_stored(), all_ok(spawned),
 {}
@@ -190,15 +294,33 @@ pub uninterp spec fn vx_shard_in_store(h: MerkleHash) -> bool;
 pub uninterp spec fn vx_xorb_in_store(h: MerkleHash) -> bool;
 pub struct VxClient { _p: () }
 impl VxClient {
-    /// cas_client::RegistrationClient::upload_shard
-    #[verifier::external_body]
-    pub fn upload_shard(&self, prefix: &str, hash: &MerkleHash, force_sync: bool, shard_data: &[u8], salt: &[u8; 32]) -> (r: std::result::Result<bool, CasClientError>)
-        ensures r is Ok ==> vx_shard_in_store(*hash)
-    { unimplemented!() }
     /// cas_client::UploadClient::put
     #[verifier::external_body]
     pub fn put(&self, prefix: &str, hash: &MerkleHash, data: Vec<u8>, chunk_and_boundaries: Vec<(MerkleHash, u32)>) -> (r: std::result::Result<usize, CasClientError>)
         ensures r matches Ok(n) ==> vx_xorb_in_store(*hash) && n <= counter_bound()
+    { unimplemented!() }
+}
+/// the shard task's view of the store client: ghost ledger of the bytes it has handed over in accepted uploads
+#[verifier::external_body]
+pub struct VxTaskClient { _p: () }
+impl VxTaskClient {
+    pub uninterp spec fn handed(&self) -> int;
+    /// cas_client::RegistrationClient::upload_shard
+    #[verifier::external_body]
+    pub fn upload_shard(&mut self, prefix: &str, hash: &MerkleHash, force_sync: bool, shard_data: &[u8], salt: &[u8; 32]) -> (r: std::result::Result<bool, CasClientError>)
+        ensures r is Ok ==> vx_shard_in_store(*hash) && final(self).handed() == old(self).handed() + shard_data@.len(),
+                r is Err ==> final(self).handed() == old(self).handed(),
+    { unimplemented!() }
+}
+/// the shard task's view of the shared `Arc<AtomicUsize>`: ghost total of what this task has added
+#[verifier::external_body]
+pub struct VxTaskCounter { _p: () }
+impl VxTaskCounter {
+    pub uninterp spec fn added(&self) -> int;
+    /// AtomicUsize::fetch_add adds exactly its argument
+    #[verifier::external_body]
+    pub fn fetch_add(&mut self, v: usize, o: Ordering) -> usize
+        ensures final(self).added() == old(self).added() + v
     { unimplemented!() }
 }
 pub struct VxPathBuf { _p: () }
@@ -244,9 +366,15 @@ pub enum Ordering { Relaxed }
 #[verifier::external_body]
 pub struct AtomicUsize { _p: () }
 impl AtomicUsize {
-    #[verifier::external_body] pub fn new(v: usize) -> Self { unimplemented!() }
-    #[verifier::external_body] pub fn fetch_add(&self, v: usize, o: Ordering) -> usize { unimplemented!() }
-    #[verifier::external_body] pub fn load(&self, o: Ordering) -> (r: usize) ensures r <= counter_bound() { unimplemented!() }
+    pub uninterp spec fn vx_init(&self) -> usize;
+    pub uninterp spec fn vx_quiescent(&self) -> bool;
+    pub uninterp spec fn vx_final(&self) -> usize;
+    #[verifier::external_body] pub fn new(v: usize) -> (r: Self) ensures r.vx_init() == v { unimplemented!() }
+    /// a load is only meaningful as "the total" once every writer has finished: that is a PRECONDITION here
+    #[verifier::external_body] pub fn load(&self, o: Ordering) -> (r: usize)
+        requires /*@C14*/ self.vx_quiescent(),
+        ensures r == self.vx_final(), r <= counter_bound()
+    { unimplemented!() }
 }
 
 pub struct VxCounter { _p: () }
@@ -289,34 +417,57 @@ impl SessionShardInterface {
 //@ extract data/src/shard_interface.rs in `impl SessionShardInterface` fn upload_and_register_session_shards
 //@ ret ret
 //@ rules R16 R17
+//@ subst `vx_async_block()` => `vx_shard_task(Ghost(dry_run), Ghost(shard_bytes_uploaded.vx_is_shared()))` :: R16 capture link: the task built here captures this `dry_run` and (if one is in scope) the byte counter `shard_bytes_uploaded`; assumed contract of vx_shard_task
 //@ contract
         requires
             // "This must be called after all xorbs have completed their upload" (doc comment of the function)
             /*@C16*/ self.vx_xorbs_drained(),
         ensures
             /*@C16*/ ret is Ok ==> self.vx_shards_stored(),
+            // the reported figure is the number of bytes handed to upload_shard, summed over all session shards
+            /*@C14*/ ret matches Ok(n) ==> self.dry_run || self.vx_shard_bytes_handed(n as int),
             ret matches Ok(n) ==> n <= counter_bound(),   // frame for the caller's byte sum (assumed counter bound), not C16
+//@ body-start
+        // until a byte counter is declared, `shard_bytes_uploaded` names "no counter"
+        let ghost shard_bytes_uploaded: VxNoCounter = arbitrary();
 //@ before `for si in`
         let ghost n_shards = shard_list@.len() as int;
         let ghost mut n_sp: int = 0;
+        let ghost dry0 = self.dry_run;
+        let ghost hc0 = shard_bytes_uploaded.vx_is_shared();
 //@ loop 1
             invariant
                 n_shards == shard_list@.len(),
+                /*@C14*/ shard_uploads.joined_c() == 0 && shard_uploads.joined_h() == 0,
+                /*@C14*/ forall|t: TaskRec<_>| #[trigger] shard_uploads.recs().count(t) > 0 ==> shard_rec_ok(dry0, hc0, t),
                 /*@C16*/ n_sp == vx_it.index@,          // one task spawned per shard taken from the list so far
                 /*@C16*/ shard_uploads@.len() == n_sp,
-//@ after `shard_uploads.spawn(vx_async_block());`
+//@ after `shard_uploads.spawn(vx_shard_task(Ghost(dry_run), Ghost(shard_bytes_uploaded.vx_is_shared())));`
             proof { n_sp = n_sp + 1; }
 //@ before `while let Some(jh)`
         let ghost pend0 = shard_uploads@;
         // every consolidated shard has its upload task in the set that is joined below
         assert(/*@C16*/ pend0.len() == n_shards);
+        let ghost mut acc_v: int = 0;      // bytes reported so far through the joined tasks' return values
 //@ loop 2
             invariant /*@C16*/ drained_ok(pend0, shard_uploads@),
+                /*@C14*/ forall|t: TaskRec<_>| #[trigger] shard_uploads.recs().count(t) > 0 ==> shard_rec_ok(dry0, hc0, t),
+                /*@C14*/ !hc0 ==> shard_uploads.joined_c() == 0,
+                // bytes handed to the store by the joined tasks == bytes they reported (value channel + counter channel)
+                /*@C14*/ !dry0 ==> shard_uploads.joined_h() == acc_v + shard_uploads.joined_c(),
+                // whatever local the function accumulates in holds exactly the value-channel bytes of the joined tasks
+                /*@C14*/ acc_v == shard_bytes_uploaded.vx_local_value(),
             ensures /*@C16*/ shard_uploads@.len() == 0,
             decreases shard_uploads@.len(),
+//@ after `jh??;`
+            proof { acc_v = acc_v + outcome_val(shard_uploads.last().outcome); }
 //@ before `Ok(shard_bytes_uploaded.load`
         // (c) Ok is returned only with the own task set drained and every result Ok(Ok(_))
         proof { /*@C16*/ vx_mark_shards_stored(self, pend0, shard_uploads@); lemma_drained_all(pend0, shard_uploads@); }
+        proof {
+            /*@C14*/ vx_counter_quiescent(&shard_bytes_uploaded, &shard_uploads);
+            /*@C14*/ vx_mark_shard_bytes(self, &shard_uploads, shard_uploads.joined_h());
+        }
         assert(/*@C16*/ shard_uploads@.len() == 0 && all_ok(pend0));
 //@ end
 }
@@ -324,12 +475,16 @@ impl SessionShardInterface {
 // the body of the task spawned per shard by upload_and_register_session_shards (what R16 leaves out there)
 //@ extract data/src/shard_interface.rs in `impl SessionShardInterface` region upload_and_register_session_shards
 //@ block `shard_uploads.spawn(async move {`
-//@ sig `fn upload_and_register_session_shards__task(si: Arc<MDBShardFile>, shard_prefix: String, shard_bytes_uploaded: Arc<AtomicUsize>, dry_run: bool, shard_client: Arc<VxClient>, salt: RepoSalt, upload_permit: OwnedSemaphorePermit, cache_shard_manager: Arc<ShardFileManager>) -> (ret: Result<()>)`
+//@ sig `fn upload_and_register_session_shards__task(si: Arc<MDBShardFile>, shard_prefix: String, shard_bytes_uploaded: &mut VxTaskCounter, dry_run: bool, shard_client: &mut VxTaskClient, salt: RepoSalt, upload_permit: OwnedSemaphorePermit, cache_shard_manager: Arc<ShardFileManager>) -> (ret: Result<impl VxTaskVal>)`
 //@ subst `std::fs::read(&si.path)` => `vx_fs_read(&si.path)` :: R7 outline of the file read (std::fs / PathBuf are outside Verus); result arbitrary
 //@ contract
         ensures
             // the task reports success only if the shard is in the store (or nothing was made visible: dry run)
             /*@C16*/ ret is Ok ==> dry_run || vx_shard_in_store(si.shard_hash),
+            // bytes reported (return value + added to the shared counter) == bytes handed to upload_shard
+            /*@C14*/ ret matches Ok(v) ==> shard_task_post(dry_run, v.val_bytes(),
+                        final(shard_bytes_uploaded).added() - old(shard_bytes_uploaded).added(),
+                        final(shard_client).handed() - old(shard_client).handed()),
 //@ end
 
 // the body of the xorb upload task spawned by register_new_xorb_for_upload
@@ -370,6 +525,9 @@ impl FileUploadSession {
 //@ contract
         ensures
             /*@C16*/ ret is Ok ==> self.shard_interface.vx_xorbs_drained() && self.shard_interface.vx_shards_stored(),
+            // the shard figure of the returned metrics is what upload_and_register_session_shards handed to the store
+            /*@C14*/ ret matches Ok((m, _)) ==> self.shard_interface.dry_run || self.shard_interface.vx_shard_bytes_handed(m.shard_bytes_uploaded as int),
+            /*@C14*/ ret matches Ok((m, _)) ==> m.total_bytes_uploaded == m.shard_bytes_uploaded + m.xorb_bytes_uploaded,
 //@ body-start
         // Until the session's task set has been taken out of the mutex its contents are unknown: `upload_tasks` names an
         // arbitrary set here, shadowed by the real one at the `take`.
